@@ -10,6 +10,7 @@ import (
 	"os"
 	"time"
 
+	"github.com/DataDog/datadog-traceroute/common"
 	"github.com/DataDog/datadog-traceroute/packets"
 	V "github.com/DataDog/datadog-traceroute/zzverif"
 )
@@ -363,3 +364,26 @@ type Listener struct {
 func (l *Listener) Accept() (net.Conn, error) { return nil, ErrInjected }
 func (l *Listener) Close() error              { l.Closed++; return nil }
 func (l *Listener) Addr() net.Addr            { return l.A }
+
+
+// Noise (job param noise=L, noise6=1 for IPv6): before the genuine reply, one arbitrary L-byte packet that the matcher
+// does not accept is delivered through the real ReceiveProbe. The harness then goes on with the genuine reply, so
+// its obligations also state that skipping garbage leaves the driver able to recognise what follows (C09).
+func Noise(src *Source, recv func(time.Duration) (*common.ProbeResponse, error)) {
+	L := V.ParamInt("noise", 0)
+	if L == 0 {
+		return
+	}
+	nz := V.Bytes("noise", L)
+	if V.ParamInt("noise6", 0) == 1 {
+		BoundArb6(nz)
+	} else {
+		BoundArb4(nz)
+	}
+	src.Next = nz
+	resp, err := recv(100 * time.Millisecond)
+	V.Assume(err != nil) // noise = a packet that is not itself accepted as a hop
+	V.Assume(common.CheckProbeRetryable("ReceiveProbe", err))
+	V.Assert(resp == nil, "C09/no-result-with-error")
+	V.Reach("noise-skipped")
+}
